@@ -128,6 +128,42 @@ class SimPipe:
         return chunk
 
 
+    def read1(self, n=-1):
+        """BufferedReader.read1: at most one raw read - on a pipe that is
+        whatever fragment happens to be available, possibly fewer than n
+        bytes and not sample aligned.  Fragment sizes are drawn (fault kind
+        `short_read`)."""
+        s = _sim()
+        if s is not None:
+            s.step("pipe.read1", n)
+        self.reads += 1
+        avail = len(self._data) - self._pos
+        if n is None or n < 0:
+            n = avail
+        k = min(n, avail)
+        if k > 1:
+            frag = self.fragment(k)
+            if frag < k:
+                self.short_reads += 1
+            k = frag
+        chunk = self._data[self._pos:self._pos + k]
+        self._pos += len(chunk)
+        if chunk:
+            self.served.append(chunk)
+        else:
+            self.eof_returned += 1
+        return chunk
+
+    short_reads = 0
+    _frag_state = 0
+
+    def fragment(self, k):
+        # deterministic fragment sizes 1..k cycling through a fixed pattern
+        pat = (3, 1, 7, 2, 5, 150, 1, 64)
+        self._frag_state += 1
+        return max(1, min(k, pat[self._frag_state % len(pat)]))
+
+
 class FakeStdin:
     def __init__(self, pipe):
         self.buffer = pipe
